@@ -11,6 +11,9 @@ Judge(c) ==
     [] PROP = "C03" -> P_C03(c)
     [] PROP = "C04" -> P_C04(c)
     [] PROP = "C12" -> P_C12(c)
+    [] PROP = "C11" -> P_C11(c)
+    [] PROP = "C13" -> P_C13(c)
+    [] PROP = "C15" -> P_C15(c)
     [] OTHER -> FALSE
 Init == l = 1 /\ TLCSet(2, {})
 Step == l <= N /\ l' = l + 1
